@@ -43,6 +43,8 @@ module Nat :
   val modulo : nat -> nat -> nat
  end
 
+val nth : nat -> 'a1 list -> 'a1 -> 'a1
+
 val nth_error : 'a1 list -> nat -> 'a1 option
 
 val last : 'a1 list -> 'a1 -> 'a1
@@ -52,6 +54,8 @@ val rev : 'a1 list -> 'a1 list
 val concat : 'a1 list list -> 'a1 list
 
 val map : ('a1 -> 'a2) -> 'a1 list -> 'a2 list
+
+val flat_map : ('a1 -> 'a2 list) -> 'a1 list -> 'a2 list
 
 val fold_left : ('a1 -> 'a2 -> 'a1) -> 'a2 list -> 'a1 -> 'a1
 
@@ -66,6 +70,8 @@ val combine : 'a1 list -> 'a2 list -> ('a1 * 'a2) list
 val firstn : nat -> 'a1 list -> 'a1 list
 
 val skipn : nat -> 'a1 list -> 'a1 list
+
+val seq : nat -> nat -> nat list
 
 val repeat : 'a1 -> nat -> 'a1 list
 
@@ -852,3 +858,78 @@ val entry_framing : entry -> bytes -> (nat * n) option
 val obs_bool : bool -> obs
 
 val spec_parse : entry -> bytes -> kv list
+
+val sub0 : bytes -> nat -> nat -> bytes
+
+val beN : bytes -> nat -> nat -> n
+
+val byte_at : bytes -> nat -> n
+
+val ref_hdr : bytes -> obs
+
+val ref_padding : bytes -> obs
+
+val ref_pad_len : bytes -> nat
+
+val ref_rb : bytes -> nat -> obs
+
+val ref_rbs : bytes -> nat -> obs
+
+val ref_view : variant -> bytes -> kv list
+
+val tiling : nat -> bytes -> nat -> (nat * nat) list option
+
+val tiling_of : bytes -> (nat * nat) list option
+
+val words : nat -> nat -> bytes -> bytes list
+
+val nack_word_seqs : bytes -> n list
+
+val fci_ref : fci_type -> nat -> bytes -> obs
+
+val fb_fci_ref : fb_kind -> bytes -> obs
+
+type ref_item =
+| RItem of n * nat * nat * (nat * nat) option
+
+type ref_chunk = { rc_ssrc : n; rc_len : nat; rc_items : ref_item list }
+
+type verdict =
+| MustAccept of ref_chunk list
+| MustReject
+| Either
+
+type 'a scan =
+| Done of 'a
+| Reject
+| Ambiguous
+
+val ref_items : nat -> bytes -> nat -> nat -> (ref_item list * nat) scan
+
+val ref_chunks : nat -> bytes -> nat -> nat -> ref_chunk list scan
+
+val sdes_ref : bytes -> verdict
+
+val obs_ref_item : ref_item -> obs
+
+val obs_ref_chunk : ref_chunk -> obs
+
+val obs_verdict : verdict -> obs
+
+val rb_violations : rb_cfg -> werr list
+
+val pad_violations : n -> werr list
+
+val item_violations : item_cfg -> werr list
+
+val fci_violations : fb_kind -> fci_cfg -> werr list
+
+val violations : member -> werr list
+
+val representable : member -> bool
+
+val obs_tiles : (nat * nat) list option -> obs
+
+val spec_parse2 : entry -> bytes -> kv list
+
+val spec_build2 : member -> kv list
